@@ -129,7 +129,8 @@ def _worker(args):
                         r.one(cls, qn, entry, data, tag)
                 for gen in (bytefam.i2_substitutions(seed, thorough), bytefam.i3_del_ins(seed, thorough),
                             bytefam.i4_pairs(seed, thorough), bytefam.i9_stretch(seed, thorough),
-                            bytefam.i10_json(seed), bytefam.i11_names(seed)):
+                            bytefam.i10_json(seed), bytefam.i11_names(seed),
+                            bytefam.i12_magic(seed) if len(seed) <= 600 else ()):
                     for tag, data in gen:
                         r.one(cls, qn, 'immutable', data, tag)
                         r.one(cls, qn, 'mutable', data, tag)
